@@ -100,13 +100,22 @@ def run(ctx):
     ctx.rule("C11.rotate", "rotate(T,R)_ijkl == sum_abcd R_ia R_jb R_kc R_ld T_abcd on generic T (81 symbols) and generic R")
     R = symarr("R", (3, 3))
     locr = defloc(ctx, T + "rotate")
-    Tr = call_public(ctx, I, T + "rotate", G.copy(), R.copy())
+    def rotation_cases(sub):
+        # a proper rotation without off-diagonal entries is one of diag(+,+,+), (+,-,-), (-,+,-), (-,-,+)
+        off = [next(iter(alg.atoms_of(R[i, j]))) for i in range(3) for j in range(3) if i != j]
+        if all(a in sub and lift(sub[a]) == ZERO for a in off):
+            dg = [next(iter(alg.atoms_of(R[i, i]))) for i in range(3)]
+            return [{a: lift(s_) for a, s_ in zip(dg, sg) if a not in sub} for sg in ((1, 1, 1), (1, -1, -1), (-1, 1, -1), (-1, -1, 1))]
+        return [{}]
+    Tr = call_public(ctx, I, T + "rotate", G.copy(), R.copy(), __cases__=rotation_cases)
+    refT = np.empty((3, 3, 3, 3), dtype=object)
     for i, j, k, l in itertools.product(range(3), repeat=4):
         ref = ZERO
         for a, b in itertools.product(range(3), repeat=2):
             rab = R[i, a] * R[j, b]
             for c, d in itertools.product(range(3), repeat=2):
                 ref = ref + rab * R[k, c] * R[l, d] * G[a, b, c, d]
+        refT[i, j, k, l] = ref
         ident(ctx, "C11.rotate", f"rotate[{i},{j},{k},{l}]", Tr[i, j, k, l], ref, locr)
     ctx.floor("C11.rotate", 81)
 
